@@ -347,6 +347,14 @@ func TestVerifC06(t *testing.T) {
 				pk := verifh.Atoi(op[1][1:])
 				rkey := key(op[1]) // resolved here: the map behind key() is not for concurrent use
 				n := verifh.Atoi(c06Opt(op, "n", "4"))
+				// `lctx=1`: every reader has its own live context; the query — which runs with the LEADER's context —
+				// has that context cancelled while it is inside and returns its error, as a database driver does: the
+				// followers, whose contexts are alive, receive the leader's error (what the code does: one shared result)
+				lc := c06Opt(op, "lctx", "0") == "1"
+				if lc {
+					dbfail = true
+				}
+				type cancelKey struct{}
 				// `i=a+b+c`: reader r goes through instance number (a, b, c)[r mod 3] — readers of ONE key spread
 				// over several CachedConn. Queries in flight are counted per barrier class the constructors promise
 				// (cache.VerifC06Class: every conn / node instance shares the package-wide barrier).
@@ -383,7 +391,13 @@ func TestVerifC06(t *testing.T) {
 						started++
 						mu.Unlock()
 						var v c06Row
-						err := rc.QueryRowCtx(ctx, &v, rkey, func(ctx context.Context, conn sqlx.SqlConn, v any) error {
+						rctx := ctx
+						if lc {
+							c, cancel := context.WithCancel(context.Background())
+							defer cancel()
+							rctx = context.WithValue(c, cancelKey{}, cancel)
+						}
+						err := rc.QueryRowCtx(rctx, &v, rkey, func(ctx context.Context, conn sqlx.SqlConn, v any) error {
 							mu.Lock()
 							inflight[cls]++
 							total++
@@ -405,6 +419,10 @@ func TestVerifC06(t *testing.T) {
 							mu.Lock()
 							inflight[cls]--
 							mu.Unlock()
+							if lc {
+								ctx.Value(cancelKey{}).(context.CancelFunc)()
+								return ctx.Err()
+							}
 							if dbfail {
 								return errC06DB
 							}
@@ -1020,13 +1038,14 @@ func c06RetryLadderScenario() verifh.Section {
 func c06CtxScenarios() []verifh.Section {
 	ops := []string{"exec p1,x1 put:1:10:1", "qindex x1 j=500"}
 	v := 11
-	for _, c := range []string{"after", "dl0", "dl1", "dl3", "dl6", "bg"} {
+	for _, c := range []string{"after", "dl0", "dl1", "dl3", "dl6", "bg", "pre"} {
 		ops = append(ops, fmt.Sprintf("exec p1,x1 put:1:%d:1 c=1 ctx=%s", v, c), "tick 1 c=0", "qindex x1 j=500 ctx="+c)
 		v++
 		ops = append(ops, fmt.Sprintf("exec p1,x1 put:1:%d:1 c=1 ctx=%s", v, c), "tick 1 c=1", "tick 4 c=1", "tick 1 c=0", "take p1 ctx="+c, "qindex x1")
 		v++
 		ops = append(ops, "del p1,x1 c=1 ctx="+c, "tick 1 c=1", "tick 5 c=1", "tick 60 c=0", "take p1 j=0 ctx="+c, "get p1 ctx="+c, "set p2 r:2:5:2 ctx="+c, "setx p3 r:3:5:3 2000 ctx="+c)
 	}
+	ops = append(ops, "exec p1,x1 put:1:90:1", "del p1", "ctake p1 n=4 lctx=1", "ctake p1 n=3", "del p1", "ctake p1 n=5 lctx=1 w=1")
 	return []verifh.Section{
 		{Cfg: "exp=20000000 nf=3000000 stale=report nodes=1 type=node place=-", Ops: ops},
 		{Cfg: "exp=20000000 nf=3000000 stale=report nodes=2 type=cluster place=p1:0,x1:0,p2:1,p3:1", Ops: ops},
@@ -1101,7 +1120,7 @@ func c06Gen(r *verifh.Rng) []verifh.Section {
 			}
 			if nc == "" && r.Chance(1, 2) {
 				// the caller's context: request-scoped (cancelled after the call), deadlines around the retries
-				nc = r.PickS(" ctx=after", " ctx=after", " ctx=dl0", " ctx=dl1", " ctx=dl3", " ctx=dl6", " ctx=dl70")
+				nc = r.PickS(" ctx=after", " ctx=after", " ctx=dl0", " ctx=dl1", " ctx=dl3", " ctx=dl6", " ctx=dl70", " ctx=pre")
 			}
 			if ni == 1 {
 				return nc
@@ -1128,7 +1147,11 @@ func c06Gen(r *verifh.Rng) []verifh.Section {
 			case x < 40:
 				ops = append(ops, fmt.Sprintf("qindex x%d%s%s%s", pkey(), c06J(r), c06Mask(r, 4), c06DBFaultP(r))+iv())
 			case x < 43:
-				ops = append(ops, fmt.Sprintf("ctake p%d n=%d%s%s", pkey(), r.Range(2, 6), c06J(r), c06DBFault(r))+ivs())
+				lc := ""
+				if r.Chance(1, 4) {
+					lc = " lctx=1"
+				}
+				ops = append(ops, fmt.Sprintf("ctake p%d n=%d%s%s%s", pkey(), r.Range(2, 6), c06J(r), c06DBFault(r), lc)+ivs())
 			case x < 47:
 				// concurrent readers of several keys, chained second reads, one P / many Ps
 				pool := r.Range(1, nk+1)
